@@ -47,7 +47,9 @@ CHECKS = {
              "its invariants at small scope. TLC enumerates request scripts (SeederScen.tla: peers p,q, session ids 1..4, chunk "
              "counts 0..2, unregistrations, three payload limits) exhaustively for 4 (quick) / 5 (thorough) steps and simulates longer "
              "ones; each script runs on the real BaseSeeder with quiescence after every step and the recorded request / ForEachItem "
-             "/ SendChunk log is validated by TLC; a sample of scripts runs again with MaxPendingResponsesSize = 5 and a slow SendChunk.",
+             "/ SendChunk log is validated by TLC; a sample of scripts runs again with MaxPendingResponsesSize = 5 and a slow SendChunk, and another sample with slow peers and "
+             "*without* quiescence before a request that resumes the session of the step before it (chunks of two requests of one "
+             "session in flight together must still enter SendChunk in order).",
         note="Exhaustive within the bounded script space only (canonical session ids, peer q restricted to one session id); longer "
              "scripts are TLC-simulated samples. Quiescence is determined with the add-only verif hooks VerifQueuedNotifications / "
              "VerifPendingResponsesSize and a barrier request of a third peer. Which sessions end when a fourth is opened is left "
